@@ -137,6 +137,7 @@ package jsonpatch
 //@   ensures[C18] nil-on-error: result.2 != nil ==> result.0 == nil
 
 //@ func (*lazyNode).intoDoc
+//@   ensures[C19] maps-kept: rMapsKept()
 //@   requires node: rNodeOK(n)
 //@   modifies n.doc, n.which
 //@   ensures[C18] parsed-iff: (err == nil) <==> (n.which == eDoc)
@@ -152,6 +153,7 @@ package jsonpatch
 //@   ensures[C18] attrs: !isTestFailed(err) && !isMissing(err) && !isCopyLimit(err) && !isInvalidIndex(err)
 
 //@ func (*lazyNode).intoAry
+//@   ensures[C19] maps-kept: rMapsKept()
 //@   requires node: rNodeOK(n)
 //@   modifies n.ary, n.which
 //@   ensures[C18] parsed-iff: (err == nil) <==> (n.which == eAry)
@@ -423,6 +425,8 @@ package jsonpatch
 // ---- RFC 7396 merge (C19) ----
 
 //@ func pruneNulls
+//@   ensures[C19] members-only-disappear: rMapsShrink()
+//@   ensures[C19] null-members-removed: rNoNilMembers(n)
 //@   callees[C19] intoDoc, pruneDocNulls, intoAry, pruneAryNulls
 //@   requires node: n != nil && rNodeOK(n) && rTextOK(n)
 //@   requires tree: rNoNullKids()
@@ -431,6 +435,8 @@ package jsonpatch
 //@   ensures[C19] kept: rDocsKept()
 
 //@ func pruneDocNulls
+//@   ensures[C19] members-only-disappear: rMapsShrink()
+//@   ensures[C19] no-null-members-left: forall k string {domsel(*doc, k)} :: k in *doc ==> (*doc)[k] != nil
 //@   callees[C19] pruneNulls
 //@   requires doc: doc != nil && allocated(doc)
 //@   requires tree: rNoNullKids()
@@ -441,8 +447,12 @@ package jsonpatch
 //@   loop 1
 //@   invariant tree: rNoNullKids()
 //@   invariant kept: rDocsKept()
+//@   invariant members-only-disappear: rMapsShrink()
+//@   invariant no-null-members-so-far: forall k string {domsel(*doc, k)} :: visited(k) && k in *doc ==> (*doc)[k] != nil
+//@   invariant same-map: *doc == old(*doc)
 
 //@ func pruneAryNulls
+//@   ensures[C19] maps-kept: rMapsKept()
 //@   callees[C19] none
 //@   requires ary: ary != nil && allocated(ary) && rAryOwned(ary)
 //@   requires tree: rNoNullKids()
@@ -465,6 +475,7 @@ package jsonpatch
 //@   ensures[C19] kept: rDocsKept()
 
 //@ func mergeDocs
+//@   callsite[C19] mapstore#2 a-member-taken-over-from-the-patch-is-pruned-when-applying: arg_key == k && arg_val == v && (!mergeMerge ==> rNoNilMembers(v))
 //@   callees[C19] pruneNulls, merge
 //@   callsite[C19] pruneNulls#1 new-member-pruned-only-when-applying: !mergeMerge
 //@   callsite[C19] merge#1 merges-current-with-patch-member: arg_cur == cur && arg_patch == v && (arg_mergeMerge <==> mergeMerge)
